@@ -36,6 +36,10 @@ CLAIMED = {
             '§4 C14', 'TLC; AsmInclude.tla'),
     'C15': ('front', 'TLC enumerates 51 faulty lines in 10 classes x 6 positions x include depth 0..2 (FaultSpace) and derives with Flatten the provenance the error must carry; each tree assembled via API (path and source string) in both modes and via CLI; exception type, file and line compared',
             '§4 C15', 'TLC; AsmInclude!Flatten'),
+    'C16': ('session', 'TLC enumerates every call history of <= 3 (4) calls over a pool of 12 interfering programs x compress x dictionary mode (AsmSession: tables never change, results are a function of the call\'s inputs); each history is replayed in one interpreter and every call compared with the same call alone in a fresh interpreter; module tables digested after each call; CLI under 5 PYTHONHASHSEED values',
+            '§4 C16', 'TLC enumerates; the baseline oracle is the implementation in a fresh interpreter (purity is relational)'),
+    'C17': ('cli', 'TLC explores the CLI model AsmCli (one action per check / write, file states absent/old/new) over all 1,728 scenarios (options x pre-existing files x trouble incl. assembler failure in each pass and unusable hex offsets) with invariants SuccessFilesExact / FailureLeavesFilesUntouched; every scenario is replayed into the real cli_main() (in-process with write-order recording, subprocess sample); Intel HEX files are decoded by TLC (IntelHex.tla)',
+            '§4 C17', 'TLC; AsmCli.tla, IntelHex.tla'),
     'C18': ('dfu', 'TLC exhaustive model checking of the host (shaped like dfu.cli_main) composed with a DfuSe device over all lengths, busy/poll-delay schedules, start states and failing operations within small constants (+ liveness under fairness, + named deviations that each invariant must catch); every exported TLC behaviour replayed into the real dfu.cli_main(); TLC trace validation (DfuTrace) of ~2000 recorded real runs (4 flash variants, boundary/swept lengths, random timing) in which TLC recomputes the flash from the requests',
             '§4 C18', 'TLC; DfuDevice.tla as the reading of DFU 1.1/DfuSe; fake usb module + patched time.sleep record faithfully'),
     'C19': ('dfu', 'same model and trace validation as C18 with every oversize class and every single / double device-error injection at every erase / write step; clauses OversizeRefusedBeforeAnyDnload and ErrorNeverAnnouncedDone judged by TLC on every recorded run',
@@ -84,6 +88,8 @@ def main():
              'kind_free_text': 'TLA+ decoder + single-step RV32 semantics executing recorded machine code of pseudo-instruction instances enumerated by TLC'},
             {'name': 'front', 'path': 'harness/checks_front.py', 'serves_properties': ['C10', 'C11', 'C13', 'C14', 'C15'],
              'kind_free_text': 'TLC enumerates each property\'s input space (DataSpace, ExprSpace, LexSpace, IncludeSpace, FaultSpace) and supplies expected outcomes from reference modules (AsmData, AsmExpr, AsmLex, AsmInclude); the harness renders and replays each point into the real assembler'},
+            {'name': 'session', 'path': 'harness/checks_session.py', 'serves_properties': ['C16'], 'kind_free_text': 'TLC-enumerated call histories replayed in one interpreter against fresh-interpreter baselines'},
+            {'name': 'cli', 'path': 'harness/checks_cli.py', 'serves_properties': ['C17'], 'kind_free_text': 'TLC model of the CLI\'s side effects; scenarios replayed into the real cli_main(); Intel HEX decoded in TLA+'},
             {'name': 'dfu', 'path': 'harness/engines/dfu.py', 'serves_properties': ['C18', 'C19'],
              'kind_free_text': 'TLA+ host+device model (Dfu, DfuDevice) checked exhaustively by TLC; real dfu.cli_main() run in-process against a simulated usb device; recorded request/sleep traces validated by TLC (DfuTrace)'},
         ],
